@@ -102,6 +102,21 @@ impl Source for FileSource {
             return Ok((self, region));
         }
 
+        // The block (and its check) must be inside the file: a truncated file must give an error,
+        // not a short buffer (or a mapping past the end of the file).
+        let full_len = region
+            .size()
+            .into_u64()
+            .saturating_add(block_check.size() as u64);
+        if region.begin().into_u64().saturating_add(full_len) > self.len {
+            return Err(format_error!(format!(
+                "Out of file. {} + {} > {}",
+                region.begin(),
+                full_len,
+                self.len
+            )));
+        }
+
         // We know from previous test that region.size() is addressable.
         let full_size = ASize::new(region.size().into_u64() as usize + block_check.size());
         if full_size.into_u64() < 4 * 1024 {
